@@ -307,8 +307,9 @@ def check_inverse(fx, R, f, fwd):
             try:
                 for la in [sp.pi * sp.nsimplify(d) / 180 for d in WIT['lat_deg']]:
                     for hh in WIT['heights']:
-                        w = {lat: la, lon: sp.Rational(3, 10), h: hh, a: 6378137, e2: sp.Rational(669438, 10 ** 8), prev: la}
-                        dv = abs(float(sp.N(dA.subs(w), 30)))
+                        laf = sp.N(la, 50)
+                        w = {lat: laf, lon: sp.Float('0.3', 50), h: sp.Float(hh, 50), a: sp.Float(6378137, 50), e2: sp.Float('0.00669438', 50), prev: laf}
+                        dv = abs(float(dA.subs(w).evalf(30)))
                         err = dv * tol / (1 - 0.0069)
                         if worst is None or err > worst[0]:
                             worst = (err, la, hh, dv)
